@@ -87,10 +87,10 @@ func binlogValue(col string, v driver.Value) interface{} {
 }
 
 type liveQuery struct {
-	idx     int
-	filter  sqlgen.Filter
-	desc    string
-	single  bool
+	idx    int
+	filter sqlgen.Filter
+	desc   string
+	single bool
 	// viaDep: the computation re-registers a serialised dependency
 	// (FilterToProto -> FilterFromProto -> LiveDB.AddDependency) and reads
 	// through the plain, non-live handle, as a server that restores
@@ -224,7 +224,21 @@ func liveBody(c *runner.Ctx) {
 		queries = append(queries, q)
 		batched := c.Choose(2, "batched") == 1
 		c.Describe("live query %d filter %s row=%v batched=%v", i, desc, q.single, batched)
-		if c.Choose(3, "second-query") == 1 {
+		colliding := c.Choose(8, "colliding-pair") == 1
+		if colliding {
+			// two queries of one computation whose argument tuples read the same
+			// when written one after the other: ("a","bc") and ("ab","c")
+			c.Probe("queries-with-colliding-argument-text")
+			pair := [][2]string{{"a", "bc"}, {"ab", "c"}}
+			k := c.Choose(2, "colliding-order")
+			q.filter = sqlgen.Filter{"name": pair[k][0], "nick": pair[k][1]}
+			q.desc = fmt.Sprintf("{name=string(%s), nick=string(%s)}", pair[k][0], pair[k][1])
+			q.viaDep = false
+			f2 := sqlgen.Filter{"name": pair[1-k][0], "nick": pair[1-k][1]}
+			q.second = &liveQuery{idx: 100 + i, filter: f2, desc: fmt.Sprintf("{name=string(%s), nick=string(%s)}", pair[1-k][0], pair[1-k][1])}
+			queries = append(queries, q.second)
+			c.Describe("live query %d now %s; live query %d (same rerunner) filter %s", i, q.desc, q.second.idx, q.second.desc)
+		} else if c.Choose(3, "second-query") == 1 {
 			// the same computation issues a second query with the same filter
 			// columns and other values (strings are drawn from a set in which
 			// different value tuples concatenate to the same text)
